@@ -52,6 +52,7 @@ type World struct {
 	A, B    *xibctesting.TestChain
 	path    *xibctesting.Path
 	tmReady bool
+	tmGone  bool // ResetStates removed the clients of the two-chain path
 	key     *ecdsa.PrivateKey
 	clients map[string]*cinfo
 	pendAB  []packettypes.Packet // sent A -> B, not yet relayed
